@@ -42,6 +42,26 @@ def resolved_subtotals(oracle, d, tdim):
     return spec_order.valid_subtotals(view_ins or [], ids, from_view=True)
 
 
+def prelude(L, part, p=0.4, k=12):
+    """In a fraction of the cases (decided by the case itself, so replays agree) read a few
+    random public properties first: what a reference monitor then observes must not depend on
+    what was read before (a value cached by one measure and shared with another, C18)."""
+    import json
+    import random
+    import zlib
+
+    from . import partcmp
+
+    r = random.Random(zlib.crc32(json.dumps(L.case, sort_keys=True, default=str).encode()))
+    if r.random() >= p:
+        return 0
+    names = partcmp.public_names(part)
+    picked = r.sample(names, min(k, len(names)))
+    for name in picked:
+        read(part, name)
+    return len(picked)
+
+
 class SliceView:
     """What the display rows/columns of a 2-D partition are, and what they should show."""
 
@@ -49,6 +69,7 @@ class SliceView:
         o = L.oracle
         self.o = o
         self.part = part
+        self.prelude_reads = prelude(L, part)
         nd = o.ndim
         self.R, self.C = nd - 2, nd - 1
         self.fixed = {0: t} if nd == 3 else {}
